@@ -23,6 +23,7 @@ FIXMAP = [
  ("fix: a caught error closed the upvalues", ("C03", "F-UV1")),
  ("fix: a call assigned to the last parameter", ("C02", "F-CALL1")),
  ("fix: 'x = f() and y' kept the old x", ("C01", "F-LOGIC1")),
+ ("fix: string.match clamps init", ("C14", "F-STR3b")),
  ("fix: NumUsedRegisters did not cover", ("C07", "F-REG1")),
  ("fix: jumps longer than the sBx range", ("C07", "F-CMP2")),
  ("fix: bulk-move merging swallowed", ("C07", "F-MOVEN1")),
